@@ -8,6 +8,7 @@
 -/
 import Stab.Model.Status
 import Stab.Gen.Status
+import Stab.Lemmas.EngineGood
 
 namespace Stab.Props.C06
 open Stab Stab.Status
@@ -70,5 +71,72 @@ theorem ofName_name (a : Status) : Status.ofName? a.name = some a := by
 
 -- non-vacuity: a legal and an illegal transition
 example : canTransition .running .succeeded = true ∧ canTransition .canceled .suspended = false := by decide
+
+
+/-! ## Part 2 — the engine: every durable status write of every handler
+
+`Stab.Engine` models the handlers as lists of effects; `applyEff` appends to `State.audit` exactly the
+rows the SQL triggers of the harness record (old ≠ new).  `LegalRow r` = `can_transition r.old r.new`. -/
+
+section Engine
+open Stab.Engine
+
+/-- **Handlers write only legal transitions — in ANY state, for any delivered message other than
+    JumpToStage** (a CompleteTask message must carry a status RUNNING may move to; `queue_ok` below shows
+    every queued CompleteTask does).  No reachability hypothesis: stale, duplicated and reordered
+    deliveries are all covered, because each handler re-reads and guards on the durable status. -/
+theorem handler_writes_legal (c : Cfg) (s : State) (row : Row) (h : MsgOK row.msg) :
+    EffAll LegalEff s (handle c s row).1.flatten :=
+  handle_legal c s row h
+
+/-- **Every durable status change is legal, along every run**: all schedules (any delivery order, redelivery
+    of unacknowledged messages), crashes after any number of commits, recovery sweeps, cancels, signals —
+    for every workflow whose task scripts contain no jump. -/
+theorem every_write_legal_partial (c : Cfg) (hc : NoJumpCfg c) (ops : List Op) :
+    ∀ r ∈ (run c ops).audit, LegalRow r :=
+  (run_good c hc ops).audit
+
+/-- **Completed is final** on those runs: a completed status never changes again. -/
+theorem complete_is_final_partial (c : Cfg) (hc : NoJumpCfg c) (ops : List Op) :
+    ∀ r ∈ (run c ops).audit, r.old.isComplete = true → r.old = r.new :=
+  fun r hr hcomp => complete_has_no_successor r.old r.new hcomp (every_write_legal_partial c hc ops r hr)
+
+/-- every CompleteTask message that is ever queued carries a status RUNNING may legally move to, and no
+    JumpToStage message exists when no script jumps -/
+theorem queue_ok (c : Cfg) (hc : NoJumpCfg c) (ops : List Op) : ∀ r ∈ (run c ops).queue, MsgOK r.msg :=
+  (run_good c hc ops).queue
+
+/-! FULL STATEMENT (not proved): `∀ c ops, ∀ r ∈ (run c ops).audit, LegalRow r ∨ r is the re-arm of a stage/task by a
+JumpToStage step` — i.e. the two theorems above without `NoJumpCfg`.  What is missing: JumpToStage writes through
+`reset_stage_to_*` without validation; with the stale-jump guard (fix F34: a jump whose source stage is no longer
+RUNNING is ignored) the source writes are legal (`jump_source_writes_legal` below), but marking the bypassed
+stages SKIPPED is only legal if none of their tasks holds a completed status, which needs an invariant over
+stale messages of earlier loop iterations (the F4 family) that is not established.  Before F34 the statement was
+false (a JumpToStage handled after CancelStage turned CANCELED into SUCCEEDED; replays/C06/F34-*.json). -/
+
+/-- with the stale-jump guard a JumpToStage only acts on a RUNNING source, so completing / failing the source
+    (forward jump, exhausted budget, unknown target) is a legal transition -/
+theorem jump_source_writes_legal (c : Cfg) (s : State) (id src tgt : Nat)
+    (h : (s.stage src).status ≠ Status.running) : hJumpToStage c s id src tgt = [[Eff.mark id]] := by
+  unfold hJumpToStage
+  simp [h]
+
+-- non-vacuity of `NoJumpCfg` and of the audit: a jump-free two-stage run with a failing task writes 9 legal rows
+def demoCfg : Cfg :=
+  { wfMaxj := none,
+    stages := [
+      { reqs := [], join := JoinType.and, threshold := 0, cont := false, failp := true, enabled := none, maxj := none,
+        tasks := [[Outcome.succ]] },
+      { reqs := [0], join := JoinType.and, threshold := 0, cont := false, failp := true, enabled := none, maxj := none,
+        tasks := [[Outcome.terminal]] }] }
+
+example : NoJumpCfg demoCfg := by
+  intro sc hsc script hs o ho t
+  simp [demoCfg] at hsc
+  rcases hsc with rfl | rfl <;> simp at hs <;> subst hs <;> simp at ho <;> subst ho <;> simp
+
+example : (run demoCfg [Op.deliver 1, Op.deliver 2, Op.deliver 3, Op.deliver 4, Op.deliver 5, Op.deliver 6]).audit.length = 5 := by decide
+
+end Engine
 
 end Stab.Props.C06
